@@ -18,6 +18,14 @@ type rec struct {
 }
 
 // renderFasta lays records out as FASTA; wrap<=0 means one line per sequence.
+// chopNl removes the final line terminator (files whose last line is not terminated are read like any other).
+func chopNl(b []byte, on bool) []byte {
+	if !on {
+		return b
+	}
+	return bytes.TrimSuffix(bytes.TrimSuffix(b, []byte("\n")), []byte("\r"))
+}
+
 func renderFasta(recs []rec, wrap int, crlf bool) []byte {
 	var b bytes.Buffer
 	nl := "\n"
@@ -122,9 +130,24 @@ func runSnps(vec map[string]interface{}) map[string]interface{} {
 		ref = strings.ToLower(ref)
 	}
 	qs := seqList(gList(vec, "qs"), "q", gBool(vec, "lowq"))
+	if pads := gList(vec, "pads"); len(pads) > 0 {
+		// pads [[at, len]] in ascending order of at: len columns of A in every row after column at of the unit
+		// (Distance!ThmPad: the SNPs are the unit's, shifted)
+		ins := func(s string) string {
+			for k := len(pads) - 1; k >= 0; k-- {
+				p := intList(pads[k].([]interface{}))
+				s = s[:p[0]] + strings.Repeat("A", p[1]) + s[p[0]:]
+			}
+			return s
+		}
+		ref = ins(ref)
+		for i := range qs {
+			qs[i].seq = ins(qs[i].seq)
+		}
+	}
 	wrap := gIntD(vec, "wrap", 0)
-	refFa := renderFasta([]rec{{"ref", ref}}, wrap, false)
-	qFa := renderFasta(qs, wrap, gBool(vec, "crlf"))
+	refFa := chopNl(renderFasta([]rec{{"ref", ref}}, wrap, false), gBool(vec, "nonlr"))
+	qFa := chopNl(renderFasta(qs, wrap, gBool(vec, "crlf")), gBool(vec, "nonlq"))
 	hard := gBool(vec, "hard")
 	obs := map[string]interface{}{}
 
@@ -221,8 +244,17 @@ func runClosest(vec map[string]interface{}) map[string]interface{} {
 			ts[i].seq = string(b)
 		}
 	}
-	qFa := renderFasta(qs, gIntD(vec, "wrapq", 0), false)
-	tFa := renderFasta(ts, gIntD(vec, "wrapt", 0), gBool(vec, "crlft"))
+	if rep := gIntD(vec, "rep", 1); rep > 1 {
+		// the vector lists one unit; the alignment is the unit repeated (Distance!ThmRepeat: every count scales by rep)
+		for i := range qs {
+			qs[i].seq = strings.Repeat(qs[i].seq, rep)
+		}
+		for i := range ts {
+			ts[i].seq = strings.Repeat(ts[i].seq, rep)
+		}
+	}
+	qFa := chopNl(renderFasta(qs, gIntD(vec, "wrapq", 0), false), gBool(vec, "nonlq"))
+	tFa := chopNl(renderFasta(ts, gIntD(vec, "wrapt", 0), gBool(vec, "crlft")), gBool(vec, "nonlt"))
 	measure := gStr(vec, "measure")
 	n := gIntD(vec, "n", 0)
 	dthou := gIntD(vec, "d", -1) // max distance: for snp an integer, for raw thousandths
